@@ -85,11 +85,16 @@ func universes(thorough bool) []*Universe {
 			Name: "full-alphabet", Locs: [][]string{locRoot, locX, locY, locXY},
 			Keys: append(append([]string{}, all...), "x"), SeekKeys: append(append([]string{}, all...), "x"),
 			Vals: []string{"", "1"}, BNames: []string{"x", "y", "a", ""}, Seq: true, Walk: true, CurDel: true,
-			MaxOps: 1, MaxEntries: pick(2, 3), SeqMax: uint64(pick(0, 1)), Seeds: []*mbucket{fullSeed()},
+			MaxOps: 1, MaxEntries: pick(2, 3), SeqMax: 0, Seeds: []*mbucket{fullSeed()},
 		},
 	}
 	if thorough {
 		us = append(us, &Universe{
+			// sequences, empty values, nesting and cursors together, two operations per transaction
+			Name: "mixed", Locs: [][]string{locRoot, locX}, Keys: []string{"a", "\xff"}, SeekKeys: []string{"a", "b"},
+			Vals: []string{"", "1"}, BNames: []string{"x"}, Seq: true, Walk: true, CurDel: true,
+			MaxOps: 2, MaxEntries: 3, SeqMax: 1,
+		}, &Universe{
 			// three operations per transaction across two nesting levels
 			Name: "nesting-3ops", Locs: [][]string{locRoot, locX}, Keys: []string{"a"}, Vals: []string{"1"},
 			BNames: []string{"x"}, Walk: false, CurDel: false, Seq: false,
